@@ -26,7 +26,9 @@ impl ColorDisplay for Token<'_> {
     let width = if self.length == 0 { 1 } else { self.length };
 
     let line_number = self.line.ordinal();
-    match self.src.lines().nth(self.line) {
+    // the end of a file that ends with a line break is on a line of its own
+    let end_of_file = (self.offset == self.src.len()).then_some("");
+    match self.src.lines().nth(self.line).or(end_of_file) {
       Some(line) => {
         let mut i = 0;
         let mut space_column = 0;
